@@ -89,3 +89,17 @@
         /// ghost observation (C02): the encoding (value and size) that the most recent resolve_encoding call chose
         /// as the smallest resolved one (recorded by that function's stub contract)
         pub uninterp spec fn chosen_encoding(r: &diagn::Report) -> util::BigInt;
+
+        /// static well-formedness of the AST with respect to the definition tables (established by the
+        /// declaration/definition phases, assumed here): every node refers to defined items, bank directives
+        /// refer to existing banks
+        pub open spec fn ast_ok(ast: &asm::AstTopLevel, decls: &asm::ItemDecls, defs: &asm::ItemDefs, nbanks: int) -> bool {
+            forall|k: int| 0 <= k < ast.nodes@.len() ==> #[trigger] node_ok(ast.nodes@[k], defs)
+                && (match ast.nodes@[k] {
+                    asm::AstAny::DirectiveBank(n) => n.item_ref is Some && (n.item_ref->0).0 < nbanks && bank_ok(defs, n.item_ref->0),
+                    asm::AstAny::DirectiveBankdef(n) => n.item_ref is Some && (n.item_ref->0).0 < nbanks && bank_ok(defs, n.item_ref->0),
+                    asm::AstAny::Symbol(n) => defined(&defs.symbols, n.item_ref),
+                    asm::AstAny::DirectiveData(n) => n.item_refs@.len() >= 1 && n.elems@.len() == n.item_refs@.len(),
+                    _ => true,
+                })
+        }
